@@ -486,6 +486,9 @@ class Scheduler:
             t.blocked_on = None
 
 
+_OBSERVER = type("Observer", (), {"name": "observer"})()
+
+
 class SimRLock:
     """Re-entrant lock whose blocking is a scheduling event."""
 
@@ -508,8 +511,16 @@ class SimRLock:
             return True
         if getattr(me.proc, "dead", False):
             raise SimCrash()
-        if sched.atomic and self.owner is not None and self.owner is not me:
-            raise WouldBlock(self.name)
+        if sched.atomic:
+            # The atomic observer borrows the thread of the task that is at
+            # the yield point, but it is a thread of its own: a lock that
+            # this very task holds is not the observer's.
+            if self.owner is not None and self.owner is not _OBSERVER:
+                raise WouldBlock(self.name)
+            self.owner = _OBSERVER
+            self.count += 1
+            self.acquisitions += 1
+            return True
         sched.yield_point("lock:acquire:" + self.name, interesting=True)
         while self.owner is not None and self.owner is not me:
             self.contended += 1
@@ -532,6 +543,11 @@ class SimRLock:
             return
         if getattr(me.proc, "dead", False):
             return                  # a dead process releases nothing
+        if sched.atomic and self.owner is _OBSERVER:
+            self.count -= 1
+            if self.count == 0:
+                self.owner = None
+            return
         if self.owner is not me:
             raise RuntimeError("cannot release un-acquired lock")
         self.count -= 1
